@@ -12,9 +12,11 @@ import (
 )
 
 type Clause struct {
-	Name string
-	Expr *Node
-	Src  string
+	Name  string
+	Label string
+	Only  []string // if set: the clause belongs only to these properties
+	Expr  *Node
+	Src   string
 }
 
 func (c *Clause) label(i int) string {
@@ -85,7 +87,7 @@ type ContractSet struct {
 	files    []string
 }
 
-var directiveRe = regexp.MustCompile(`^([a-z-]+)(\[[A-Za-z0-9_.:-]+\])?(\s+|$)`)
+var directiveRe = regexp.MustCompile(`^([a-z-]+)(\[[A-Za-z0-9_.:@,-]+\])?(\s+|$)`)
 
 var knownDirectives = map[string]bool{"func": true, "extern": true, "property": true, "requires": true, "ensures": true,
 	"modifies": true, "loop": true, "spec": true, "nooverflow": true, "nopanic": true, "inline": true, "assume": true, "pure": true,
@@ -318,7 +320,18 @@ func (cs *ContractSet) parseFile(path, pkg string) error {
 			if d.name == "" {
 				return perr(d, fmt.Errorf("guard needs the callee name: guard[name] expr"))
 			}
-			cur.Guards = append(cur.Guards, &Clause{Name: d.name, Expr: n, Src: d.text})
+			// guard[callee:label]: the optional label names the obligation
+			gname, glabel := d.name, ""
+			if i := strings.Index(gname, ":"); i >= 0 {
+				gname, glabel = gname[:i], gname[i+1:]
+			}
+			// label@C04,C05 restricts the obligation to those properties' checks
+			var only []string
+			if i := strings.Index(glabel, "@"); i >= 0 {
+				only = strings.Split(glabel[i+1:], ",")
+				glabel = glabel[:i]
+			}
+			cur.Guards = append(cur.Guards, &Clause{Name: gname, Label: glabel, Expr: n, Src: d.text, Only: only})
 		case "reveal":
 			cur.Reveal = append(cur.Reveal, strings.Fields(d.text)...)
 		case "hint":
